@@ -23,6 +23,250 @@ def SrcOf (c : MonCfg) (src : Src) : Prop :=
 def memoRun (mc : MemoCfg) (src : Src) (idxs : List Nat) : Memo :=
   idxs.foldl (fun m i => (m.wait mc i).1) { src := src }
 
+/-! ## Helpers: the single-reader invariant linking the monitor to the sequential model -/
+namespace MM
+open Mon
+
+/-- index of the call in progress, if any -/
+def cur : ReaderPc → List Nat
+  | .idle => []
+  | .parked i => [i]
+  | .woken i => [i]
+
+/-- indices of the calls entered so far by a reader, in program order -/
+def ent (r : Reader) : List Nat := r.results.reverse.map (·.1) ++ cur r.pc
+
+theorem ent_bc (r : Reader) : ent (bc r) = ent r := by
+  unfold ent
+  rw [bc_results, bc_pc]
+  cases hpc : r.pc <;> simp [cur]
+
+theorem ent_waitTail (len : Nat) (done : Bool) (index : Nat) (r : Reader) :
+    ent (waitTail len done index r) = r.results.reverse.map (·.1) ++ [index] := by
+  rcases waitTail_cases len done index r with ⟨_, h⟩ | ⟨_, h⟩ <;> rw [h] <;> simp [ent, cur]
+
+theorem todo_waitTail (len : Nat) (done : Bool) (index : Nat) (r : Reader) :
+    (waitTail len done index r).todo = r.todo := by
+  rcases waitTail_cases len done index r with ⟨_, h⟩ | ⟨_, h⟩ <;> rw [h]
+
+theorem memoRun_snoc (mc : MemoCfg) (src : Src) (l : List Nat) (i : Nat) :
+    memoRun mc src (l ++ [i]) = ((memoRun mc src l).wait mc i).1 := by
+  simp [memoRun, List.foldl_append]
+
+theorem wait_src (mc : MemoCfg) (m : Memo) (i : Nat) : (m.wait mc i).1.src = m.src := by
+  simp only [Memo.wait]
+  split <;> rfl
+
+theorem foldl_src (mc : MemoCfg) (l : List Nat) : ∀ m : Memo,
+    (l.foldl (fun m i => (m.wait mc i).1) m).src = m.src := by
+  induction l with
+  | nil => intro m; rfl
+  | cons x xs ih => intro m; rw [List.foldl_cons, ih, wait_src]
+
+theorem memoRun_src (mc : MemoCfg) (src : Src) (l : List Nat) : (memoRun mc src l).src = src :=
+  foldl_src mc l _
+
+theorem wait_max (mc : MemoCfg) (m : Memo) (i : Nat) :
+    (m.wait mc i).1.maxLength =
+      if (!m.done && decide (m.maxLength ≤ i)) = true then mc.chunk * min (i / mc.chunk + 1) mc.maxChunks
+      else m.maxLength := by
+  simp only [Memo.wait]
+  split <;> rfl
+
+/-- the demands of the monitor and of the sequential model agree up to the end marker -/
+def Agree (src : Src) (a b : Nat) : Prop :=
+  match src.len with
+  | some L => min a (L + 1) = min b (L + 1)
+  | none => a = b
+
+/-- a good prefix does not go beyond the end marker -/
+theorem good_le (c : MonCfg) (src : Src) (hsrc : SrcOf c src) (n L : Nat) (hL : src.len = some L)
+    (hg : Good c n) : n ≤ L := by
+  rcases Nat.lt_or_ge L n with h | h
+  · have h1 := hg L h
+    rw [(hsrc.1 L hL).1] at h1
+    cases h1
+  · exact h
+
+/-- the two ways the producer can have exited -/
+theorem exited_cases (c : MonCfg) (src : Src) (hsrc : SrcOf c src) (s : MonSt) (hi : Inv1 c s)
+    (hp : s.prod = .exited) :
+    (∃ L, src.len = some L ∧ s.len = L ∧ s.consulted = L + 1) ∨
+    (s.len = cap c ∧ s.consulted = cap c ∧ s.maxLength = cap c) := by
+  have h := hi.hprod
+  rw [hp] at h
+  simp only [PInv] at h
+  obtain ⟨_, hg, h3⟩ := h
+  have hcons := hi.hcons
+  have hM := hi.hM
+  rcases h3 with ⟨h4, h5⟩ | ⟨h4, h5⟩
+  · left
+    cases hl : src.len with
+    | none => have := hsrc.2 hl s.len; rw [h4] at this; cases this
+    | some L =>
+      refine ⟨L, rfl, ?_, ?_⟩
+      · have h6 := good_le c src hsrc s.len L hl hg
+        rcases Nat.lt_or_ge s.len L with h7 | h7
+        · have := (hsrc.1 L hl).2 s.len h7
+          rw [h4] at this; cases this
+        · omega
+      · have h6 := good_le c src hsrc s.len L hl hg
+        rcases Nat.lt_or_ge s.len L with h7 | h7
+        · have := (hsrc.1 L hl).2 s.len h7
+          rw [h4] at this; cases this
+        · omega
+  · right
+    omega
+
+/-- one `wait(index)` entry keeps the demands in agreement -/
+theorem agree_step (c : MonCfg) (hc : 0 < c.chunk) (src : Src) (hsrc : SrcOf c src) (s : MonSt)
+    (hi : Inv1 c s) (M : Memo) (hM : M.src = src) (i : Nat) (hic : i < cap c)
+    (ha : Agree src s.maxLength M.maxLength) :
+    Agree src (if (!s.done && decide (s.maxLength ≤ i)) = true then grownMax c i else s.maxLength)
+      (M.wait ⟨c.chunk, c.maxChunks⟩ i).1.maxLength := by
+  rw [wait_max]
+  have hg : i < grownMax c i := grownMax_gt c hc i hic
+  have hd : s.done = true →
+      (∃ L, src.len = some L ∧ s.len = L ∧ s.consulted = L + 1) ∨
+      (s.len = cap c ∧ s.consulted = cap c ∧ s.maxLength = cap c) :=
+    fun hd => exited_cases c src hsrc s hi (done_exited c s hi hd)
+  have hcons := hi.hcons
+  show Agree src _ (if (!M.done && decide (M.maxLength ≤ i)) = true then grownMax c i else M.maxLength)
+  generalize grownMax c i = g at hg ⊢
+  unfold Agree at ha ⊢
+  unfold Memo.done
+  rw [hM]
+  cases hl : src.len with
+  | none =>
+    simp only [hl] at ha ⊢
+    cases hdn : s.done with
+    | false => simp [ha]
+    | true =>
+      rcases hd hdn with ⟨L, h1, _⟩ | ⟨_, _, h3⟩
+      · rw [hl] at h1; cases h1
+      · have : ¬ (M.maxLength ≤ i) := by omega
+        simp [this, ha]
+  | some L =>
+    simp only [hl] at ha ⊢
+    cases hdn : s.done with
+    | false =>
+      by_cases h1 : s.maxLength ≤ i <;> by_cases h2 : M.maxLength ≤ i <;>
+        by_cases h3 : L < M.maxLength <;> simp [h1, h2, h3] <;> omega
+    | true =>
+      have h4 : L < s.maxLength ∨ s.maxLength = cap c := by
+        rcases hd hdn with ⟨L', h1, _, h3⟩ | ⟨_, _, h3⟩
+        · rw [hl] at h1; cases h1; omega
+        · exact Or.inr h3
+      by_cases h2 : M.maxLength ≤ i <;>
+        by_cases h3 : L < M.maxLength <;> simp [h2, h3] <;> omega
+
+/-- single-reader invariant: program order of the calls, and agreement of the demands -/
+def SInv (c : MonCfg) (src : Src) (idxs : List Nat) (s : MonSt) : Prop :=
+  ∃ r, s.readers = [r] ∧ ent r ++ r.todo = idxs ∧
+    Agree src s.maxLength (memoRun ⟨c.chunk, c.maxChunks⟩ src (ent r)).maxLength
+
+theorem sinv_init (c : MonCfg) (src : Src) (idxs : List Nat) : SInv c src idxs (monInit [idxs]) := by
+  refine ⟨⟨.idle, idxs, []⟩, rfl, by simp [ent, cur], ?_⟩
+  simp only [ent, cur, monInit, memoRun, Agree]
+  cases src.len <;> rfl
+
+theorem singleton_get {α : Type} (a b : α) (k : Nat) (h : [a][k]? = some b) : k = 0 ∧ b = a := by
+  cases k with
+  | zero => simp at h; exact ⟨rfl, h.symm⟩
+  | succ k => simp at h
+
+theorem sinv_step (c : MonCfg) (hc : 0 < c.chunk) (src : Src) (hsrc : SrcOf c src) (idxs : List Nat)
+    (hcap : ∀ i ∈ idxs, i < cap c) (s s' : MonSt) (l : Label) (hi : Inv1 c s)
+    (h : SInv c src idxs s) (hs : step c s l = some s') : SInv c src idxs s' := by
+  obtain ⟨r, hrs, he, ha⟩ := h
+  cases l with
+  | rEnter k =>
+    obtain ⟨r0, index, rest, hr, hpc, htodo, rfl⟩ := step_rEnter c s s' k hs
+    rw [hrs] at hr
+    obtain ⟨rfl, rfl⟩ := singleton_get _ _ _ hr
+    have hent : ent r0 = r0.results.reverse.map (·.1) := by simp [ent, hpc, cur]
+    have hidx : index < cap c := hcap index (by rw [← he, htodo]; simp)
+    refine ⟨waitTail s.len s.done index { r0 with todo := rest }, by simp [hrs], ?_, ?_⟩
+    · rw [ent_waitTail, todo_waitTail, ← he, hent, htodo]; simp
+    · rw [ent_waitTail]
+      show Agree src _ (memoRun _ src (r0.results.reverse.map (·.1) ++ [index])).maxLength
+      rw [memoRun_snoc, ← hent]
+      exact agree_step c hc src hsrc s hi _ (memoRun_src _ _ _) index hidx ha
+  | rWake k =>
+    obtain ⟨r0, index, hr, hpc, rfl⟩ := step_rWake c s s' k hs
+    rw [hrs] at hr
+    obtain ⟨rfl, rfl⟩ := singleton_get _ _ _ hr
+    have hent : ent r0 = r0.results.reverse.map (·.1) ++ [index] := by simp [ent, hpc, cur]
+    refine ⟨waitTail s.len s.done index r0, by simp [hrs], ?_, ?_⟩
+    · rw [ent_waitTail, todo_waitTail, ← hent]; exact he
+    · rw [ent_waitTail, ← hent]; exact ha
+  | pCheck =>
+    obtain ⟨_, _, h3, h4, _⟩ := step_pCheck_frame c s s' hs
+    exact ⟨r, by rw [h4, hrs], he, by rw [h3]; exact ha⟩
+  | pCompute =>
+    obtain ⟨_, _, h3, h4, _⟩ := step_pCompute_frame c s s' hs
+    exact ⟨r, by rw [h4, hrs], he, by rw [h3]; exact ha⟩
+  | pPublish =>
+    obtain ⟨loc, fin, next, _, rfl⟩ := step_pPublish c s s' hs
+    refine ⟨bc r, by simp [broadcast_eq, hrs], ?_, ?_⟩
+    · rw [ent_bc, bc_todo]; exact he
+    · rw [ent_bc]; exact ha
+
+theorem sinv_run (c : MonCfg) (hc : 0 < c.chunk) (src : Src) (hsrc : SrcOf c src) (idxs : List Nat)
+    (hcap : ∀ i ∈ idxs, i < cap c) (ls : List Label) : ∀ (s s' : MonSt), Inv1 c s →
+    SInv c src idxs s → runLabels c s ls = some s' → SInv c src idxs s' := by
+  induction ls with
+  | nil => intro s s' _ h hr; simp only [runLabels] at hr; cases hr; exact h
+  | cons l ls ih =>
+    intro s s' hi h hr
+    simp only [runLabels] at hr
+    split at hr
+    · cases hr
+    · rename_i s1 hs1
+      exact ih s1 s' (inv1_step c hc s s1 l hi hs1) (sinv_step c hc src hsrc idxs hcap s s1 l hi h hs1) hr
+
+/-- a stuck state has the producer parked or exited -/
+theorem stuck_prod (c : MonCfg) (s : MonSt) (hstuck : enabledLabels c s = []) :
+    (∃ i, s.prod = .parked i) ∨ s.prod = .exited := by
+  cases hpp : s.prod with
+  | check j =>
+    exfalso
+    refine enabled_of c s .pCheck (by simp [allLabels]) ?_ hstuck
+    simp only [step, hpp]
+    split
+    · rfl
+    · split <;> rfl
+  | parked j => exact Or.inl ⟨j, rfl⟩
+  | computing j1 j2 loc =>
+    exfalso
+    refine enabled_of c s .pCompute (by simp [allLabels]) ?_ hstuck
+    simp only [step, hpp]
+    split
+    · rfl
+    · split <;> rfl
+  | publishing j loc fin =>
+    exfalso
+    refine enabled_of c s .pPublish (by simp [allLabels]) ?_ hstuck
+    simp only [step, hpp, Option.isSome_some]
+  | finalPublish loc =>
+    exfalso
+    refine enabled_of c s .pPublish (by simp [allLabels]) ?_ hstuck
+    simp only [step, hpp, Option.isSome_some]
+  | exited => exact Or.inr rfl
+
+/-- from the order of the indices and the pointwise answers to the list of answers -/
+theorem map_pair {α : Type} (l : List α) (f : α → Nat) (g : α → Bool) (h : Nat → Bool) (idxs : List Nat)
+    (h1 : l.map f = idxs) (h2 : ∀ x ∈ l, g x = h (f x)) :
+    l.map (fun x => (f x, g x)) = idxs.map (fun i => (i, h i)) := by
+  subst h1
+  rw [List.map_map]
+  apply List.map_congr_left
+  intro x hx
+  simp [h2 x hx]
+
+end MM
+open Mon MM
+
 /-- C04/C06 bridge: a single sequential client, any schedule, final state -/
 theorem single_client_final (c : MonCfg) (hc : 0 < c.chunk) (src : Src) (hsrc : SrcOf c src)
     (idxs : List Nat) (hcap : InCapacity c [idxs])
@@ -34,6 +278,89 @@ theorem single_client_final (c : MonCfg) (hc : 0 < c.chunk) (src : Src) (hsrc : 
     -- consultations and published length are those of the sequential model
     s.consulted = (memoRun ⟨c.chunk, c.maxChunks⟩ src idxs).consulted ∧
     s.len = src.minLen (memoRun ⟨c.chunk, c.maxChunks⟩ src idxs).maxLength := by
-  sorry
+  have hreach : Reachable c [idxs] s := ⟨ls, hrun⟩
+  have hi1 := inv1_reachable c hc [idxs] s hreach
+  have hi2 := inv2_reachable c hc [idxs] hcap s hreach
+  have hcap' : ∀ i ∈ idxs, i < cap c := fun i hi => hcap idxs (by simp) i hi
+  obtain ⟨r, hrs, he, ha⟩ :=
+    sinv_run c hc src hsrc idxs hcap' ls _ s (inv1_init c [idxs]) (sinv_init c src idxs) hrun
+  -- the reader is done
+  have hnp : pending s = false := by
+    cases hp : pending s with
+    | false => rfl
+    | true => exact absurd hstuck (mon_deadlock_free c hc [idxs] hcap s hreach hp)
+  have hidle : r.pc = .idle ∧ r.todo = [] := by
+    simp only [pending, hrs, List.any_cons, List.any_nil, Bool.or_false, Bool.or_eq_false_iff] at hnp
+    obtain ⟨h1, h2⟩ := hnp
+    constructor
+    · simpa using h1
+    · simpa using h2
+  obtain ⟨hpc, htodo⟩ := hidle
+  have hent : r.results.reverse.map (·.1) = idxs := by
+    rw [htodo, List.append_nil] at he
+    simpa [ent, hpc, cur] using he
+  have he' : ent r = idxs := by rw [htodo, List.append_nil] at he; exact he
+  rw [he'] at ha
+  have hrm : r ∈ s.readers := by rw [hrs]; simp
+  have hgood := good_len c s hi1
+  refine ⟨⟨r, hrs, hpc, htodo, ?_⟩, ?_⟩
+  · apply map_pair r.results.reverse (·.1) (·.2.2) src.has idxs hent
+    intro res hres
+    rw [List.mem_reverse] at hres
+    have h1 := hi1.hres r hrm res hres
+    have h2 := (hi2 r hrm).2.2.2 res hres
+    show res.2.2 = src.has res.1
+    unfold Src.has
+    cases hl : src.len with
+    | none =>
+      simp only []
+      cases hok : res.2.2 with
+      | true => rfl
+      | false =>
+        obtain ⟨e, _, hend⟩ := h2.2 hok
+        have := hsrc.2 hl e
+        rw [hend.1] at this; cases this
+    | some L =>
+      simp only []
+      have hL := hsrc.1 L hl
+      have hlen := good_le c src hsrc s.len L hl hgood
+      cases hok : res.2.2 with
+      | true =>
+        rw [h2.1] at hok
+        have : res.1 < res.2.1 := of_decide_eq_true hok
+        symm; apply decide_eq_true; omega
+      | false =>
+        obtain ⟨e, hle, hend⟩ := h2.2 hok
+        have : ¬ (e < L) := by
+          intro hlt
+          have := hL.2 e hlt
+          rw [hend.1] at this; cases this
+        symm; apply decide_eq_false; omega
+  · have hcons := hi1.hcons
+    have hlc := len_le_consulted c s hi1
+    have hM := hi1.hM
+    unfold Memo.consulted Src.minLen
+    rw [memoRun_src]
+    unfold Agree at ha
+    rcases stuck_prod c s hstuck with ⟨j, hp⟩ | hp
+    · have h := hi1.hprod
+      rw [hp] at h
+      simp only [PInv] at h
+      obtain ⟨_, h2, _, h4, h5⟩ := h
+      cases hl : src.len with
+      | none => simp only [hl] at ha ⊢; omega
+      | some L =>
+        simp only [hl] at ha ⊢
+        have := good_le c src hsrc s.len L hl h4
+        omega
+    · rcases exited_cases c src hsrc s hi1 hp with ⟨L, hl, h2, h3⟩ | ⟨h1, h2, h3⟩
+      · simp only [hl] at ha ⊢
+        omega
+      · cases hl : src.len with
+        | none => simp only [hl] at ha ⊢; omega
+        | some L =>
+          simp only [hl] at ha ⊢
+          have := good_le c src hsrc s.len L hl hgood
+          omega
 
 end Sqroot.Proofs
